@@ -27,6 +27,13 @@ type Solver struct {
 	log      *bufio.Writer // optional transcript (for cross-checking with other solvers)
 	logAns   []string
 	bin      string
+	// retry ladder for "unknown": a fresh process of the same solver with three times the time limit, then the
+	// other installed z3 version (same limit). alt holds the process whose model answers values() after a sat.
+	fullMs  int // the harness's full per-query limit (the process itself runs with a soft limit)
+	noRetry bool
+	alt     *Solver
+	retries int
+	retryOK int
 }
 
 func newSolver(tb *TB, bin string, timeoutMs int, transcript io.Writer) (*Solver, error) {
@@ -47,7 +54,7 @@ func newSolver(tb *TB, bin string, timeoutMs int, transcript io.Writer) (*Solver
 	if err := cmd.Start(); err != nil {
 		return nil, err
 	}
-	s := &Solver{tb: tb, cmd: cmd, in: in, out: bufio.NewReaderSize(out, 1<<20), defined: map[int]bool{}, bin: bin}
+	s := &Solver{tb: tb, cmd: cmd, in: in, out: bufio.NewReaderSize(out, 1<<20), defined: map[int]bool{}, bin: bin, fullMs: timeoutMs}
 	if transcript != nil {
 		s.log = bufio.NewWriter(transcript)
 	}
@@ -57,6 +64,10 @@ func newSolver(tb *TB, bin string, timeoutMs int, transcript io.Writer) (*Solver
 }
 
 func (s *Solver) close() {
+	if s.alt != nil {
+		s.alt.close()
+		s.alt = nil
+	}
 	if s.log != nil {
 		s.log.Flush()
 	}
@@ -177,8 +188,95 @@ func (s *Solver) sync(pc []Term) {
 	}
 }
 
-// check decides pc ∧ extra. The temporary level stays open (for values) until the next call.
+// check decides pc ∧ extra. The long-lived incremental process runs with a soft limit (at most 20 s per
+// query): z3's incremental mode occasionally stalls on a query that a fresh process decides at once. An
+// "unknown" is therefore re-asked on a fresh process of the same solver with three times the harness's full
+// limit; that process then REPLACES the stalled one (it holds the same assertion stack). If it cannot decide
+// either, the other installed z3 version is asked once (its model, if any, answers the following values()).
 func (s *Solver) check(pc []Term, extra ...Term) string {
+	if s.alt != nil {
+		s.alt.close()
+		s.alt = nil
+	}
+	t0 := time.Now()
+	res := s.check1(pc, extra...)
+	if d := time.Since(t0); slowMs > 0 && d > time.Duration(slowMs)*time.Millisecond {
+		fmt.Fprintf(os.Stderr, "SLOW query %.1fs -> %s (pc=%d conjuncts)\n", d.Seconds(), res, len(pc))
+	}
+	if res != "unknown" || s.noRetry || s.fullMs <= 0 {
+		return res
+	}
+	if r, err := newSolver(s.tb, s.bin, 3*s.fullMs, nil); err == nil {
+		r.noRetry = true
+		s.retries++
+		t1 := time.Now()
+		ans := r.check1(pc, extra...)
+		if slowMs > 0 {
+			fmt.Fprintf(os.Stderr, "RETRY on fresh %s (%d ms) -> %s after %.1fs\n", s.bin, 3*s.fullMs, ans, time.Since(t1).Seconds())
+		}
+		s.adopt(r, time.Since(t1))
+		if ans == "sat" || ans == "unsat" {
+			s.retryOK++
+			s.unknowns--
+			return ans
+		}
+	}
+	other := "z3-new"
+	if s.bin == "z3-new" {
+		other = "z3"
+	}
+	if _, err := exec.LookPath(other); err == nil {
+		if r, err := newSolver(s.tb, other, 3*s.fullMs, nil); err == nil {
+			r.noRetry = true
+			s.retries++
+			t1 := time.Now()
+			ans := r.check1(pc, extra...)
+			s.dur += time.Since(t1)
+			s.queries++
+			if slowMs > 0 {
+				fmt.Fprintf(os.Stderr, "RETRY on fresh %s (%d ms) -> %s after %.1fs\n", other, 3*s.fullMs, ans, time.Since(t1).Seconds())
+			}
+			if ans == "sat" || ans == "unsat" {
+				s.retryOK++
+				s.unknowns--
+				if ans == "sat" {
+					s.alt = r
+				} else {
+					r.close()
+				}
+				return ans
+			}
+			r.close()
+		}
+	}
+	return res
+}
+
+// adopt replaces this solver's process by r's (same assertion stack, temporary level open); the old process is
+// killed. The soft limit is kept for later queries by restarting lazily: r runs with the long limit, which only
+// matters for the rare query that stalls again.
+func (s *Solver) adopt(r *Solver, d time.Duration) {
+	old := s.cmd
+	oldIn := s.in
+	s.cmd, s.in, s.out = r.cmd, r.in, r.out
+	s.defined, s.declUF, s.stack, s.tempOpen = r.defined, r.declUF, r.stack, r.tempOpen
+	s.dur += d
+	s.queries++
+	oldIn.Close()
+	if old.Process != nil {
+		old.Process.Kill()
+	}
+	go old.Wait()
+}
+
+var slowMs = func() int {
+	n := 0
+	fmt.Sscan(os.Getenv("VCHECK_SLOW"), &n)
+	return n
+}()
+
+// check1 decides pc ∧ extra on this process. The temporary level stays open (for values) until the next call.
+func (s *Solver) check1(pc []Term, extra ...Term) string {
 	t0 := time.Now()
 	s.sync(pc)
 	refs := make([]string, len(extra))
@@ -230,6 +328,9 @@ func (s *Solver) check(pc []Term, extra ...Term) string {
 func (s *Solver) values(ts []Term) []string {
 	if len(ts) == 0 {
 		return nil
+	}
+	if s.alt != nil {
+		return s.alt.values(ts)
 	}
 	out := make([]string, 0, len(ts))
 	const chunk = 200
